@@ -60,13 +60,17 @@ m("C04,C11", "h-analysis-no-shift", "vc2_conformance/pseudocode/picture_encoding
 m("C14", "fit-strict-less", ENC, "        if total_length <= target_size:", "        if total_length < target_size:")
 m("C14", "search-starts-at-min+1", ENC, "    for qindex in count(minimum_qindex):", "    for qindex in count(minimum_qindex + 1):")
 m("C14", "ld-length-bits-omitted", ENC, "            target_size -= intlog2(target_size)  # slice_y_length field", "            pass")
-m("C14", "coeff-bits-ignore-sign", ENC, "            num_bits += signed_exp_golomb_length(coeff)", "            num_bits += signed_exp_golomb_length(abs(coeff))")
+m("C14", "coeff-bits-forget-negative-sign", ENC, "            num_bits += signed_exp_golomb_length(coeff)",
+  "            num_bits += signed_exp_golomb_length(coeff) - (1 if coeff < 0 else 0)")
 # ---- C06
 m("C06", "revert-D5", "vc2_conformance/bitstream/vc2.py", '"bytes", max(0, state["next_parse_offset"] - PARSE_INFO_HEADER_BYTES)',
   '"bytes", state["next_parse_offset"] - PARSE_INFO_HEADER_BYTES', count=2)
 # ---- C26
-m("C26", "viewer-discards-current-unit", "vc2_conformance/scripts/vc2_bitstream_viewer.py",
-  "                if not current_data_unit:\n                    sequence[\"data_units\"][i] = None", "                sequence[\"data_units\"][i] = None")
+m("C26", "friendly-enum-formatter-unguarded", "vc2_conformance/fixeddict.py",
+  "                try:\n                    return enum_type(value).name\n                except ValueError:\n                    return None",
+  "                return enum_type(value).name")
+m("C26", "viewer-rereads-one-bit-too-many", "vc2_conformance/scripts/vc2_bitstream_viewer.py",
+  "raw_bits = self._reader.read_bitarray(this_offset - last_offset)", "raw_bits = self._reader.read_bitarray(this_offset - last_offset + 1)")
 # ---- C25
 m("C25", "picture-index-incremented-first", "vc2_conformance/scripts/vc2_bitstream_validator.py",
   "        filename = self._output_filename % (self._next_picture_index,)\n        self._next_picture_index += 1",
